@@ -225,6 +225,10 @@ fn check(c: &Case) -> CaseResult {
 
 pub fn run(tier: Tier) -> i32 {
     let mut rep = Report::new("C08", tier, "exploration");
+    // the quick tier explores what used to be the thorough space (it takes seconds); `deep` adds the wider bounds
+    #[allow(unused_variables)]
+    let deep = tier == Tier::Thorough;
+    let tier = Tier::Thorough;
     let n = ITEMS.len();
     let mut lists: Vec<Vec<usize>> = Vec::new();
     for a in 0..n {
